@@ -95,8 +95,15 @@ let parse_runs (s : string) : rec_run list option =
           rrun = { did_run = (did = "1"); cells = cells_of_body body } }
       | _ -> failwith ("run record " ^ r)) (List.filter (fun x -> x <> "") (split ' ' s)))
 
-(* case -> (action, tree); [runs] feeds the outcomes *)
-let parse_case (case : string) (runs : rec_run list) : action * node list =
+(* case -> (action, filtered tree, remap); [runs] feeds the outcomes.
+   The case lists the registered tree; an optional trailing section
+   "D <k> <id | id:argindex>..." names the leaves the case's filters remove
+   (computed by the generator by evaluating the filters on every display path).
+   The model takes the tree after [EntryTree::retain]: dropped leaves and
+   argument cases are removed, then benchmarks without argument cases and
+   groups without children.  [remap id i] is the declared index of the i-th
+   surviving argument case. *)
+let parse_case (case : string) (runs : rec_run list) : action * node list * (n -> int -> int) =
   let tbl : (string, run list) Hashtbl.t = Hashtbl.create 64 in
   let key id arg = string_of_n id ^ ":" ^ (match arg with None -> "-" | Some a -> string_of_int a) in
   List.iter (fun r ->
@@ -104,45 +111,76 @@ let parse_case (case : string) (runs : rec_run list) : action * node list =
       let old = try Hashtbl.find tbl k with Not_found -> [] in
       Hashtbl.replace tbl k (old @ [r.rrun])) runs;
   let toks = Array.of_list (split ' ' case) in
+  let drops : (string, unit) Hashtbl.t = Hashtbl.create 8 in
+  Array.iteri (fun i t ->
+      if t = "D" then begin
+        let k = int_of_string toks.(i + 1) in
+        for j = 1 to k do Hashtbl.replace drops toks.(i + 1 + j) () done
+      end) toks;
+  let kept_tbl : (string, int array) Hashtbl.t = Hashtbl.create 16 in
   let pos = ref 0 in
   let next () = let t = toks.(!pos) in incr pos; t in
   let action = match next () with "bench" -> ABench | "test" -> ATest | "list" -> AList | a -> failwith ("action " ^ a) in
   let _prof = next () in
   let sc_of s = match s with "-" | "o" -> None | "d" -> Some None | k -> Some (Some (n_of_string k)) in
-  let rec node () =
+  let rec node () : node option =
     match next () with
     | "G" ->
       let name = pct_decode (next ()) in
       let sc = sc_of (next ()) in
       let k = int_of_string (next ()) in
-      let kids = List.init k (fun _ -> ()) |> List.map (fun () -> node ()) in
-      Group (name, sc, kids)
+      let kids = List.init k (fun _ -> ()) |> List.map (fun () -> node ()) |> List.filter_map (fun x -> x) in
+      if kids = [] then None else Some (Group (name, sc, kids))
     | "B" ->
-      let id = n_of_string (next ()) in
+      let ids = next () in
+      let id = n_of_string ids in
       let name = pct_decode (next ()) in
       let sc = sc_of (next ()) in
       let ign = next () = "1" in
       let a = next () in
-      let args = if a = "P" then None else begin
+      let args_all = if a = "P" then None else begin
           let k = int_of_string (String.sub a 1 (String.length a - 1)) in
           Some (List.map (fun () -> pct_decode (next ())) (List.init k (fun _ -> ())))
         end in
       let th = next () in
       let threads = if th = "-" then [] else List.map n_of_string (split ',' th) in
       let _beh = next () in
-      let is_args = args <> None in
-      let out (i : nat) (j : nat) : run =
-        let arg = if is_args then Some (int_of_nat i) else None in
-        let l = try Hashtbl.find tbl (key id arg) with Not_found -> [] in
-        match List.nth_opt l (int_of_nat j) with
-        | Some r -> r
-        | None -> { did_run = false; cells = empty_cells } in
-      Bench (id, name, sc, ign, args, threads, out)
+      (match args_all with
+       | None ->
+         if Hashtbl.mem drops ids then None
+         else begin
+           let out (_ : nat) (j : nat) : run =
+             let l = try Hashtbl.find tbl (key id None) with Not_found -> [] in
+             match List.nth_opt l (int_of_nat j) with
+             | Some r -> r
+             | None -> { did_run = false; cells = empty_cells } in
+           Some (Bench (id, name, sc, ign, None, threads, out))
+         end
+       | Some names ->
+         let indexed = List.mapi (fun i nm -> (i, nm)) names in
+         let kept = List.filter (fun (i, _) -> not (Hashtbl.mem drops (ids ^ ":" ^ string_of_int i))) indexed in
+         if kept = [] then None
+         else begin
+           let karr = Array.of_list (List.map fst kept) in
+           Hashtbl.replace kept_tbl ids karr;
+           let out (i : nat) (j : nat) : run =
+             let ii = int_of_nat i in
+             let arg = if ii < Array.length karr then Some karr.(ii) else Some (-1) in
+             let l = try Hashtbl.find tbl (key id arg) with Not_found -> [] in
+             match List.nth_opt l (int_of_nat j) with
+             | Some r -> r
+             | None -> { did_run = false; cells = empty_cells } in
+           Some (Bench (id, name, sc, ign, Some (List.map snd kept), threads, out))
+         end)
     | k -> failwith ("node kind " ^ k) in
   if next () <> "N" then failwith "N";
   let k = int_of_string (next ()) in
-  let t = List.map (fun () -> node ()) (List.init k (fun _ -> ())) in
-  (action, t)
+  let t = List.filter_map (fun x -> x) (List.map (fun () -> node ()) (List.init k (fun _ -> ()))) in
+  let remap id i =
+    match Hashtbl.find_opt kept_tbl (string_of_n id) with
+    | Some karr when i < Array.length karr -> karr.(i)
+    | _ -> i in
+  (action, t, remap)
 
 (* model input: "case @@ runs" *)
 let split_at_marker (s : string) : string * string =
@@ -158,7 +196,7 @@ let tree_mode line =
   match parse_runs runs with
   | None -> "no-run-records"
   | Some rs ->
-    let (a, t) = parse_case case rs in
+    let (a, t, _) = parse_case case rs in
     (match paint a t with
      | Ok (_, out) -> "ok " ^ esc (utf8_of_cps out)
      | Panic p -> "panic " ^ string_of_panic p)
@@ -168,9 +206,9 @@ let tree_check line =
   let (head, runs) = split_at_marker impl in
   match toks head, parse_runs runs with
   | ["ok"; text], Some rs ->
-    let (a, t) = parse_case case rs in
+    let (a, t, remap) = parse_case case rs in
     let out = cps_of_utf8 (unesc text) in
-    let inv_model = List.map (fun ((id, arg), _tc) -> (id, (match arg with None -> None | Some i -> Some (int_of_nat i)))) (all_calls a t) in
+    let inv_model = List.map (fun ((id, arg), _tc) -> (id, (match arg with None -> None | Some i -> Some (remap id (int_of_nat i))))) (all_calls a t) in
     let inv_impl = List.map (fun r -> (r.rid, r.rarg)) rs in
     if inv_model <> inv_impl then verdict false "benchmark-calls-differ-from-the-tree(ignored-or-listed-benchmark-run,or-a-case-missing)"
     else if not (paint_sb a t out) then
